@@ -1,6 +1,6 @@
 //! feig WriteFile (firmware upload): payload directories on disk, the runner over a
 //! ScriptedStream, the C05 part for this sequence and the whole of C11.
-use crate::c05::{render_events, verify, Exchange};
+use crate::c05::{render_events, verify, Answer, Exchange};
 use crate::seqs::*;
 use crate::sim::*;
 use crate::util::*;
@@ -233,8 +233,8 @@ pub fn check_upload(table: &Table, up: &Upload) -> (Vec<String>, Vec<Ev>) {
                         let ff = f.fields();
                         let id = ff[0].inner().map(|x| x.int());
                         let size = ff[2].inner().map(|x| x.int());
-                        if ff[1] != Val::None || ff[3] != Val::None || id.is_none() || size.is_none() {
-                            problems.push(format!("file list entry must carry exactly id and size: {f:?}"));
+                        if id.is_none() || size.is_none() {
+                            problems.push(format!("file list entry must carry the file id and its size: {f:?}"));
                         }
                         got.push((id.unwrap_or(999), size.unwrap_or(0)));
                     }
@@ -253,7 +253,7 @@ pub fn check_upload(table: &Table, up: &Upload) -> (Vec<String>, Vec<Ev>) {
         return (problems, events);
     }
     // the exchange: valid requests are answered with the block, the first invalid one ends it
-    let mut script: Vec<(&[u8], String, Vec<u8>)> = vec![];
+    let mut script: Vec<(&[u8], String, Answer)> = vec![];
     let mut failing: Option<usize> = None;
     for (k, r) in up.requests.iter().enumerate() {
         let dbg = format!("RequestForData({})", codec.debug_string(req_ty, &r.value()));
@@ -263,7 +263,7 @@ pub fn check_upload(table: &Table, up: &Upload) -> (Vec<String>, Vec<Ev>) {
                 let data = content(*id, up.seed, size);
                 let start = (*off as usize).min(size);
                 let end = (start + up.block as usize).min(size);
-                script.push((&packets[k][..], dbg, write_data_bytes(&codec, table, *id, *off, &data[start..end])));
+                script.push((&packets[k][..], dbg, Answer::Data { id: *id, offset: *off, payload: data[start..end].to_vec() }));
             }
             _ => {
                 failing = Some(k);
@@ -275,7 +275,7 @@ pub fn check_upload(table: &Table, up: &Upload) -> (Vec<String>, Vec<Ev>) {
         None => {
             if let Some(fin) = up.finish {
                 let dbg = if fin { "CompletionData(CompletionData { result_code: None, status_byte: None, terminal_id: None, currency: None })".to_string() } else { "Abort(Abort { error: 108 })".to_string() };
-                script.push((&packets[packets.len() - 1][..], dbg, ACK.to_vec()));
+                script.push((&packets[packets.len() - 1][..], dbg, Answer::Ack));
                 let ex = Exchange { cmd, script, trailer: &trailer, dropped: up.dropped };
                 problems.extend(verify(&ex, &events, &log));
                 let total: usize = 3 + packets.iter().map(|p| p.len()).sum::<usize>();
@@ -310,8 +310,8 @@ pub fn check_upload(table: &Table, up: &Upload) -> (Vec<String>, Vec<Ev>) {
             for e in it {
                 if let Ev::Write(w) = e {
                     if idx < k {
-                        if *w != script[idx].2 {
-                            problems.push(format!("answer to request {idx} is {} expected {}", hex_short(w), hex_short(&script[idx].2)));
+                        if !script[idx].2.satisfied_by(w) {
+                            problems.push(format!("answer to request {idx} is {} expected {}", hex_short(w), script[idx].2.describe()));
                         }
                         idx += 1;
                     }
